@@ -64,6 +64,229 @@ def handler_shape(fn, parent_expected):
     return probs
 
 
+def ladder_of(fn):
+    """[(signal name, action)] of a generated handler's if/elif ladder, and (status, parent expression) of its else arm; None when the shape is not a ladder"""
+    body = [s for s in fn.body if not (isinstance(s, ast.Expr) and isinstance(s.value, ast.Constant))]
+    arms, node = [], next((s for s in body if isinstance(s, ast.If)), None)
+    els = None
+    while isinstance(node, ast.If):
+        cp = compare_parts(node.test)
+        if not (cp and dotted(cp[0]) == 'e.signal' and cp[1] is ast.Eq and signal_const(cp[2])):
+            return None
+        act = None
+        if len(node.body) == 1 and isinstance(node.body[0], ast.Assign):
+            v = node.body[0].value
+            if status_const(v):
+                act = status_const(v)
+            elif isinstance(v, ast.Call) and [norm(a) for a in v.args] == ['chart', 'e']:
+                act = 'call:' + norm(v.func)
+        arms.append((signal_const(cp[2]), act))
+        if len(node.orelse) == 1 and isinstance(node.orelse[0], ast.If):
+            node = node.orelse[0]
+        else:
+            if len(node.orelse) == 1 and isinstance(node.orelse[0], ast.Assign) and isinstance(node.orelse[0].targets[0], ast.Tuple) and isinstance(node.orelse[0].value, ast.Tuple):
+                a = node.orelse[0]
+                pairs = dict(zip([norm(t) for t in a.targets[0].elts], a.value.elts))
+                st = next((status_const(v) for k, v in pairs.items() if k != 'chart.temp.fun'), None)
+                els = (st, norm(pairs['chart.temp.fun']) if 'chart.temp.fun' in pairs else None)
+            node = None
+    return arms, els
+
+
+def codegen_eval(run, model, tc):
+    """to_code is a pure function of the two registries: evaluate it (finite evaluator, nothing of miros is run) on a family of registry contents, parse the text it
+    returns and compare the handler it describes with what the registries say - which is what the template handler does at run time (TABLE.registries)."""
+    import collections
+    from sa import pureeval
+    run.rule('CODEGEN.eval', 'to_code evaluated on small registries: the text parses into a protocol-conforming handler whose arms are exactly the registered (signal -> callback) pairs, '
+                             'lifecycle signals without a callback answer HANDLED, the else arm names the registered parent')
+    names = {1: 'ENTRY_SIGNAL', 2: 'EXIT_SIGNAL', 3: 'INIT_SIGNAL', 11: 'A', 12: 'B', 13: 'C'}
+    num = {v: k for k, v in names.items()}
+    sig = pureeval.Obj(name_for_signal=lambda n: names[n])
+    for k, v in names.items():
+        setattr(sig, v, k)
+
+    def cb(n):
+        return pureeval.Obj(__name__=n)
+    from sa.util import module_level_names
+    modnames = module_level_names(tc.module)
+    life = ('ENTRY_SIGNAL', 'INIT_SIGNAL', 'EXIT_SIGNAL')
+    orders = [[], ['A'], ['A', 'B'], ['B', 'A'], ['B', 'C', 'A']]
+    n_eval, bad = 0, None
+    for parent in ('top', 's0'):
+        for lc in itertools.product(('absent', 'handled', 'custom'), repeat=3):
+            for others in orders:
+                for life_first in (True, False):
+                    reg = collections.OrderedDict()
+                    lifeitems = [(num[nm], cb('handled' if how == 'handled' else 'on_' + nm.lower())) for nm, how in zip(life, lc) if how != 'absent']
+                    otheritems = [(num[o], cb('on_' + o.lower())) for o in others]
+                    for k, v in (lifeitems + otheritems if life_first else otheritems + lifeitems):
+                        reg[k] = v
+                    if not reg:
+                        continue
+                    me = pureeval.Obj(_lookup={'s1': dict(reg), 'other_state': {num['A']: cb('foreign')}}, _parents={'s1': cb(parent), 'other_state': cb('top')})
+                    for arg in ('s1', cb('s1')):
+                        n_eval += 1
+                        try:
+                            text = pureeval.call(tc.node, [me, arg], globals_={'signals': sig, 'namedtuple': collections.namedtuple, 'None': None}, mutable=True, strict_locals=True, module_names=modnames)
+                        except pureeval.Raised as ex:
+                            text = None
+                            probs = ['to_code raises %s' % ex.what]
+                        if text is not None:
+                            probs = []
+                            try:
+                                tree = ast.parse(text)
+                                fn = tree.body[0] if tree.body else None
+                            except (SyntaxError, TypeError) as ex:
+                                fn = None
+                                probs.append('the text does not parse: %s' % ex)
+                            if fn is not None and not isinstance(fn, ast.FunctionDef):
+                                probs.append('the text is not one function definition')
+                                fn = None
+                            if fn is not None:
+                                pexp = 'chart.top' if parent == 'top' else parent
+                                probs += handler_shape(fn, pexp)
+                                if fn.name != 's1':
+                                    probs.append('the function is called %s, not s1' % fn.name)
+                                if [norm(d) for d in fn.decorator_list] != ['spy_on']:
+                                    probs.append('not decorated with spy_on')
+                                lad = ladder_of(fn)
+                                if lad is None:
+                                    probs.append('no if/elif ladder on e.signal')
+                                else:
+                                    arms, els = lad
+                                    want = {}
+                                    for k, v in reg.items():
+                                        want[names[k]] = 'HANDLED' if v.__dict__['__name__'] == 'handled' else 'call:' + v.__dict__['__name__']
+                                    for nm in life:
+                                        want.setdefault(nm, 'HANDLED')
+                                    got = {}
+                                    for nm, act in arms:
+                                        if nm in got:
+                                            probs.append('two arms test %s (only the first can ever run)' % nm)
+                                        got.setdefault(nm, act)
+                                    if got != want:
+                                        diff = sorted(set(got.items()) ^ set(want.items()), key=repr)
+                                        probs.append('arms differ from the registry: %s' % diff)
+                                    if els != ('SUPER', pexp):
+                                        probs.append('else arm is %s, expected (SUPER, %s)' % (els, pexp))
+                        if probs and bad is None:
+                            bad = ({names[k]: v.__dict__['__name__'] for k, v in reg.items()}, parent, probs, text)
+    run.inst('CODEGEN.eval', tc, 'to_code over %d registry contents (parent top/other x lifecycle callbacks absent/default/custom x up to three user signals in either registration order, by name and by function)' % n_eval,
+             bad is None,
+             '' if bad is None else ('for a state whose registry is %s with parent %s the text to_code returns is not the handler the registries describe: %s' % (bad[0], bad[1], '; '.join(bad[2][:3]))),
+             obligation=True)
+    run.floor('to_code evaluations', n_eval, 200)
+    return True
+
+
+
+def codegen_fragments(run, model, tc):
+    lits = []
+    # the accumulated text is the local that to_code returns
+    code_vars = {r.value.id for r in walk_shallow(tc.node) if isinstance(r, ast.Return) and isinstance(r.value, ast.Name)}
+    if len(code_vars) != 1:
+        raise AnalysisError('to_code: the returned text variable was not identified')
+    code_var = code_vars.pop()
+    for n in walk_shallow(tc.node):
+        if isinstance(n, (ast.Assign, ast.AugAssign)):
+            tg = n.targets[0] if isinstance(n, ast.Assign) else n.target
+            if isinstance(tg, ast.Name) and tg.id == code_var:
+                v = n.value
+                s_ = const_str(v) if const_str(v) is not None else (const_str(v.func.value) if isinstance(v, ast.Call) and isinstance(v.func, ast.Attribute) and v.func.attr == 'format' else None)
+                if s_ is None:
+                    raise AnalysisError('to_code: a fragment is not a string literal: %s' % norm(n))
+                # positional format arguments that are locals bound only to string literals (keyword = "if" / "elif") are part of the fragment text
+                variants = [s_]
+                if isinstance(v, ast.Call) and '{}' in s_:
+                    tdefs = local_defs(tc.node)
+                    for a in v.args:
+                        vals = None
+                        if isinstance(a, ast.Name):
+                            ds = tdefs.get(a.id, [])
+                            if ds and all(not isinstance(d, tuple) and const_str(d) is not None for d in ds):
+                                vals = sorted({const_str(d) for d in ds})
+                        elif const_str(a) is not None:
+                            vals = [const_str(a)]
+                        nxt = []
+                        for s2 in variants:
+                            if vals is None:
+                                # keep the hole, but past this position
+                                nxt.append(s2.replace('{}', '\0', 1))
+                            else:
+                                nxt.extend(s2.replace('{}', x, 1) for x in vals)
+                        variants = nxt
+                    variants = [x.replace('\0', '{}') for x in variants]
+                lits.extend(variants)
+    run.floor('to_code: emitted fragments', len(lits), 10)
+    classes = {}
+    for s_ in set(lits):
+        t = s_.strip()
+        if t.startswith('@'):
+            k = 'decorator'
+        elif t.startswith('def '):
+            k = 'def'
+        elif t.startswith('if('):
+            k = 'if'
+        elif t.startswith('elif('):
+            k = 'elif'
+        elif t.startswith('else'):
+            k = 'else'
+        elif t.startswith('return'):
+            k = 'return'
+        elif 'temp.fun' in t:
+            k = 'super'
+        elif '(chart, e)' in t:
+            k = 'callback'
+        elif t.startswith('status =') and not s_.startswith('    '):
+            k = 'init'
+        elif t == 'status = return_status.HANDLED':
+            k = 'handled'
+        elif t.startswith('status ='):
+            k = 'other-assign'
+        else:
+            raise AnalysisError('to_code: unclassified fragment %r' % s_)
+        classes.setdefault(k, set()).add(s_)
+    need = ('decorator', 'def', 'init', 'if', 'elif', 'else', 'return', 'super', 'callback', 'handled')
+    if 'super' not in classes or 'other-assign' in classes:
+        run.inst('CODEGEN.fragments', tc, 'to_code emits an else arm that moves the cursor to the parent', False,
+                 'to_code emits no fragment of the form `status, chart.temp.fun = return_status.SUPER, <parent>` (found instead: %s): the generated handler '
+                 'answers SUPER without telling the processor which state is its parent' % sorted(classes.get('other-assign', [])), obligation=True)
+        return
+    missing = [k for k in need if k not in classes]
+    amb = [k for k, v in classes.items() if len(v) != 1]
+    if missing or amb:
+        raise AnalysisError('to_code: fragment classes missing %s / ambiguous %s' % (missing, amb))
+    F = {k: next(iter(v)) for k, v in classes.items()}
+    n_prog = 0
+    for first, second, third, parent in itertools.product(('handled', 'callback'), ('handled', 'callback'), ('handled', 'callback'), ('chart.top', 'outer_state')):
+        arms = [first, second, third]
+        text = F['decorator'].lstrip('\n') + F['def'].format('some_state') + F['init']
+        for i, a in enumerate(arms):
+            text += (F['if'] if i == 0 else F['elif']).format(('ENTRY_SIGNAL', 'INIT_SIGNAL', 'EXIT_SIGNAL')[i])
+            text += F['handled'] if a == 'handled' else F['callback'].format('cb_%d' % i)
+        text += F['else'] + F['super'].format(parent) + F['return']
+        n_prog += 1
+        try:
+            tree = ast.parse(text)
+            fn = tree.body[0]
+            probs = handler_shape(fn, parent) if isinstance(fn, ast.FunctionDef) else ['not a function definition']
+            if isinstance(fn, ast.FunctionDef) and [norm(d) for d in fn.decorator_list] != ['spy_on']:
+                probs.append('not decorated with spy_on')
+        except SyntaxError as ex:
+            probs = ['does not parse: %s' % ex]
+        run.inst('CODEGEN.fragments', tc, 'assembled text (%s / parent %s) is a protocol-conforming handler' % ('+'.join(arms), parent), not probs,
+                 '' if not probs else 'the text to_code emits for a state with arms %s and parent %s is not a handler of the shape the processor assumes: %s'
+                 % (arms, parent, '; '.join(probs)), obligation=True)
+    run.floor('assembled to_code programs', n_prog, 16)
+    # to_code maps parent 'top' to chart.top and a missing/`handled` callback to HANDLED
+    txt = norm(tc.node, 100000)
+    ok = "'chart.top'" in txt and "== 'top'" in txt
+    run.inst('CODEGEN.fragments', tc, "the top parent is emitted as chart.top", ok, 'top is no longer emitted as chart.top (a bare `top` is undefined in the generated text)', obligation=True)
+    ok = ".callback == 'handled'" in txt and '.callback is None' in txt
+    run.inst('CODEGEN.fragments', tc, 'missing and default callbacks are emitted as HANDLED', ok, 'the default `handled` callback is emitted as a call to an undefined name', obligation=True)
+
+
 def check(run, model, tier):
     run.explanation = ('Protocol-shape analysis of the template-generated handler, key-structure agreement of the two registries between their '
                        'writers, the runtime readers and to_code, a complete enumeration of the text fragments to_code can emit (assembled with '
@@ -216,110 +439,14 @@ def check(run, model, tier):
     wk = [norm(n.slice) for n in walk_shallow(rp.node) if isinstance(n, ast.Subscript) and isinstance(n.ctx, ast.Store)]
     ok = any('.__name__' in k for k in wk)
     run.inst('TABLE.registries', rp, 'parents stored under the state name', ok, 'register_parent stores under %s' % wk, obligation=True)
-    # ---- CODEGEN.fragments
-    lits = []
-    # the accumulated text is the local that to_code returns
-    code_vars = {r.value.id for r in walk_shallow(tc.node) if isinstance(r, ast.Return) and isinstance(r.value, ast.Name)}
-    if len(code_vars) != 1:
-        raise AnalysisError('to_code: the returned text variable was not identified')
-    code_var = code_vars.pop()
-    for n in walk_shallow(tc.node):
-        if isinstance(n, (ast.Assign, ast.AugAssign)):
-            tg = n.targets[0] if isinstance(n, ast.Assign) else n.target
-            if isinstance(tg, ast.Name) and tg.id == code_var:
-                v = n.value
-                s_ = const_str(v) if const_str(v) is not None else (const_str(v.func.value) if isinstance(v, ast.Call) and isinstance(v.func, ast.Attribute) and v.func.attr == 'format' else None)
-                if s_ is None:
-                    raise AnalysisError('to_code: a fragment is not a string literal: %s' % norm(n))
-                # positional format arguments that are locals bound only to string literals (keyword = "if" / "elif") are part of the fragment text
-                variants = [s_]
-                if isinstance(v, ast.Call) and '{}' in s_:
-                    tdefs = local_defs(tc.node)
-                    for a in v.args:
-                        vals = None
-                        if isinstance(a, ast.Name):
-                            ds = tdefs.get(a.id, [])
-                            if ds and all(not isinstance(d, tuple) and const_str(d) is not None for d in ds):
-                                vals = sorted({const_str(d) for d in ds})
-                        elif const_str(a) is not None:
-                            vals = [const_str(a)]
-                        nxt = []
-                        for s2 in variants:
-                            if vals is None:
-                                # keep the hole, but past this position
-                                nxt.append(s2.replace('{}', '\0', 1))
-                            else:
-                                nxt.extend(s2.replace('{}', x, 1) for x in vals)
-                        variants = nxt
-                    variants = [x.replace('\0', '{}') for x in variants]
-                lits.extend(variants)
-    run.floor('to_code: emitted fragments', len(lits), 10)
-    classes = {}
-    for s_ in set(lits):
-        t = s_.strip()
-        if t.startswith('@'):
-            k = 'decorator'
-        elif t.startswith('def '):
-            k = 'def'
-        elif t.startswith('if('):
-            k = 'if'
-        elif t.startswith('elif('):
-            k = 'elif'
-        elif t.startswith('else'):
-            k = 'else'
-        elif t.startswith('return'):
-            k = 'return'
-        elif 'temp.fun' in t:
-            k = 'super'
-        elif '(chart, e)' in t:
-            k = 'callback'
-        elif t.startswith('status =') and not s_.startswith('    '):
-            k = 'init'
-        elif t == 'status = return_status.HANDLED':
-            k = 'handled'
-        elif t.startswith('status ='):
-            k = 'other-assign'
-        else:
-            raise AnalysisError('to_code: unclassified fragment %r' % s_)
-        classes.setdefault(k, set()).add(s_)
-    need = ('decorator', 'def', 'init', 'if', 'elif', 'else', 'return', 'super', 'callback', 'handled')
-    if 'super' not in classes or 'other-assign' in classes:
-        run.inst('CODEGEN.fragments', tc, 'to_code emits an else arm that moves the cursor to the parent', False,
-                 'to_code emits no fragment of the form `status, chart.temp.fun = return_status.SUPER, <parent>` (found instead: %s): the generated handler '
-                 'answers SUPER without telling the processor which state is its parent' % sorted(classes.get('other-assign', [])), obligation=True)
-        return
-    missing = [k for k in need if k not in classes]
-    amb = [k for k, v in classes.items() if len(v) != 1]
-    if missing or amb:
-        raise AnalysisError('to_code: fragment classes missing %s / ambiguous %s' % (missing, amb))
-    F = {k: next(iter(v)) for k, v in classes.items()}
-    n_prog = 0
-    for first, second, third, parent in itertools.product(('handled', 'callback'), ('handled', 'callback'), ('handled', 'callback'), ('chart.top', 'outer_state')):
-        arms = [first, second, third]
-        text = F['decorator'].lstrip('\n') + F['def'].format('some_state') + F['init']
-        for i, a in enumerate(arms):
-            text += (F['if'] if i == 0 else F['elif']).format(('ENTRY_SIGNAL', 'INIT_SIGNAL', 'EXIT_SIGNAL')[i])
-            text += F['handled'] if a == 'handled' else F['callback'].format('cb_%d' % i)
-        text += F['else'] + F['super'].format(parent) + F['return']
-        n_prog += 1
-        try:
-            tree = ast.parse(text)
-            fn = tree.body[0]
-            probs = handler_shape(fn, parent) if isinstance(fn, ast.FunctionDef) else ['not a function definition']
-            if isinstance(fn, ast.FunctionDef) and [norm(d) for d in fn.decorator_list] != ['spy_on']:
-                probs.append('not decorated with spy_on')
-        except SyntaxError as ex:
-            probs = ['does not parse: %s' % ex]
-        run.inst('CODEGEN.fragments', tc, 'assembled text (%s / parent %s) is a protocol-conforming handler' % ('+'.join(arms), parent), not probs,
-                 '' if not probs else 'the text to_code emits for a state with arms %s and parent %s is not a handler of the shape the processor assumes: %s'
-                 % (arms, parent, '; '.join(probs)), obligation=True)
-    run.floor('assembled to_code programs', n_prog, 16)
-    # to_code maps parent 'top' to chart.top and a missing/`handled` callback to HANDLED
-    txt = norm(tc.node, 100000)
-    ok = "'chart.top'" in txt and "== 'top'" in txt
-    run.inst('CODEGEN.fragments', tc, "the top parent is emitted as chart.top", ok, 'top is no longer emitted as chart.top (a bare `top` is undefined in the generated text)', obligation=True)
-    ok = ".callback == 'handled'" in txt and '.callback is None' in txt
-    run.inst('CODEGEN.fragments', tc, 'missing and default callbacks are emitted as HANDLED', ok, 'the default `handled` callback is emitted as a call to an undefined name', obligation=True)
+    # ---- CODEGEN: decided by evaluating to_code where the evaluator can follow it; the fragment enumeration below is the fall-back
+    evaluated = False
+    try:
+        evaluated = codegen_eval(run, model, tc)
+    except AnalysisError as ex_:
+        run.note('to_code is outside the evaluator\'s fragment (%s): decided by enumerating and assembling its text fragments' % ex_)
+    if not evaluated:
+        codegen_fragments(run, model, tc)
     # ---- FACTORY.attributes
     fac = model.cls('Factory')
     cg = callgraph(model)
